@@ -350,6 +350,42 @@ def fwdTokGo (s : Bytes) : Nat → Nat → List Item → TokRes
 
 def fwdTokens (s : Bytes) : TokRes := fwdTokGo s (2 * s.length + 2) 0 []
 
+/-- SPECIFICATION (not code): the same tokenizer with an offsets[] array of unbounded size –
+    what the header says, all of it.  Props/C03.lean shows that whenever the request is not
+    rejected, the bounded tokenizer produced exactly this list. -/
+def fwdTokGoU (s : Bytes) : Nat → Nat → List Item → TokRes
+  | 0, _, items => .ok items
+  | fuel + 1, i, items =>
+    if i ≥ s.length then .ok items else
+    let i := i + ((s.drop i).takeWhile (fun c => c = sp || c = ht)).length
+    match s[i]? with
+    | none => .ok items
+    | some c =>
+      if c = 59 then fwdTokGoU s fuel (i + 1) items
+      else if c = 44 then fwdTokGoU s fuel (i + 1) (items ++ [.sep])
+      else
+        let k := i
+        match findNext true s i (s.length + 1) with
+        | none => .bad
+        | some i =>
+          if s[i]? ≠ some 61 then fwdTokGoU s fuel i items
+          else
+            let klen := i - k
+            let v := i + 1
+            match findNext false s v (s.length + 1) with
+            | none => .bad
+            | some i =>
+              let vlen := i - v
+              if klen = 0 then fwdTokGoU s fuel i items
+              else fwdTokGoU s fuel i (items ++ [.kv k klen v vlen])
+
+def fwdTokensU (s : Bytes) : TokRes := fwdTokGoU s (2 * s.length + 2) 0 []
+
+/-- a textual address as extract_forward_array() isolates it: non-empty, made of hex digits,
+    ':' and '.', not starting with '.' -/
+def tokenLike (a : Bytes) : Prop :=
+  (∃ c rest, a = c :: rest ∧ isHexColon c = true) ∧ ∀ c ∈ a, (isHexColon c || c = dot) = true
+
 /-! ### Forwarded: the walk over "for=" params -/
 
 def sub (s : Bytes) (off len : Nat) : Bytes := (s.drop off).take len
@@ -427,6 +463,11 @@ def fwdWalkGroups (f : Forwarder) (s : Bytes) : List (List Item) → Option Byte
       else
         let ofor := if usable x then some x else ofor
         if isProxyTrusted f x then fwdWalkGroups f s gs ofor else .addr ofor
+
+/-- the walk goes past this proxy: it reports no identifier, or a trusted one
+    (hypothesis vocabulary of the walk theorems in Props/C03.lean) -/
+def Passes (f : Forwarder) (s : Bytes) (g : List Item) : Prop :=
+  groupVal s g = none ∨ ∃ x, groupVal s g = some (.val x) ∧ (x = [] ∨ isProxyTrusted f x = true)
 
 /-- the walk of mod_extforward_Forwarded() over all params (`while (j >= 3)`) -/
 def fwdWalk (f : Forwarder) (s : Bytes) (items : List Item) : WalkRes :=
